@@ -864,6 +864,24 @@ func (e *SpecEnv) callExpr(n *ast.CallExpr) SVal {
 			}
 			ghostReads++
 			return SVal{Select(e.st.getHeap(sortOf(T)), ref), T}
+		case "flagstr", "flagint", "flagbool":
+			// the value of a command-line flag (the fixed unknown value the flag getters return for that name)
+			lit, ok := n.Args[0].(*ast.BasicLit)
+			if !ok {
+				e.fail(n, "%s(\"name\")", id.Name)
+			}
+			name, _ := strconv.Unquote(lit.Value)
+			switch id.Name {
+			case "flagstr":
+				return SVal{App("flag$"+name, SString), tyString}
+			case "flagint":
+				return SVal{App("flag$"+name, SInt), tyInt}
+			}
+			return SVal{App("flag$"+name, SBool), tyBool}
+		case "errIs":
+			// errIs(e, t): errors.Is(e, t)
+			a, b := e.eval(n.Args[0]), e.eval(n.Args[1])
+			return SVal{errorsIs(a.T, b.T), tyBool}
 		case "call":
 			// call(f, a...): the result of applying function value f. It is an uninterpreted application; when f is a
 			// known function value (a closure, a bound method, a function) whose function has a contract, that
